@@ -74,6 +74,21 @@ Fixpoint music_norm (d : list Z) : list Z :=
   | _ => d
   end.
 
+(* ---- short sections ----
+   Newer PICO-8 versions do not write the empty tail of a data section: trailing rows that hold what an empty cart
+   holds are left out of the .p8 file (a section may have any number of rows from none to the full count, or be
+   missing altogether).  A row that is not in the file therefore denotes the empty default, and every region keeps
+   its full size and its place in the cart's memory.  The defaults are the contents of the empty cart PICO-8 itself
+   writes: zeros for gfx / label / gff / map; for music the pattern 41 42 43 44 (the four channels silent: bit 6
+   set, pattern numbers 1-4; text line "00 41424344"); for sfx the never-edited pattern - no notes, no loop, speed 16,
+   but speed 1 for pattern 0 (text lines "001000000..." and, for the first, "000100000..."). *)
+Definition spec_default_music : list Z := concat (repeat [65; 66; 67; 68] 64).
+Definition spec_default_sfx_pattern (speed : Z) : list Z := repeat 0 64 ++ [0; speed; 0; 0].
+Definition spec_default_sfx : list Z :=
+  spec_default_sfx_pattern 1 ++ concat (repeat (spec_default_sfx_pattern 16) 63).
+(* the region denoted by the bytes d of the rows that are present: d followed by the default's tail *)
+Definition spec_fill (dflt d : list Z) : list Z := d ++ skipn (length d) dflt.
+
 (* ---- png steganography ---- *)
 (* a pixel is (r, g, b, a) as pypng delivers it (RGBA order) *)
 Definition spec_pixel_byte (r g b a : Z) : Z :=
